@@ -279,6 +279,28 @@ def run_sse_imm(sh):
                                  {'rewrite': 'intel-att' if kind.startswith('att') else 'intel', 'line': base_line, 'variant': line})
 
 
+def run_segover(sh):
+    """Explicit segment overrides written in both syntaxes: an override is kept or dropped by both front ends alike (the default
+    segment of the base register makes some overrides redundant, which both may or may not encode, but identically)."""
+    from miasmx.arch.ia32_arch import x86mnemo
+    mems = [('[ebp+4]', '4(%ebp)', 'stack-base'), ('[esp+8]', '8(%esp)', 'stack-base'), ('[ebx+4]', '4(%ebx)', 'data-base'), ('[eax]', '(%eax)', 'data-base'),
+            ('[ebp+esi*2+4]', '4(%ebp,%esi,2)', 'stack-base'), ('[eax+ebp*2]', '(%eax,%ebp,2)', 'data-base'), ('[0x1234]', '0x1234', 'absolute')]
+    forms = [('mov eax, DWORD PTR %s:%s', 'movl %%%s:%s, %%eax'), ('mov BYTE PTR %s:%s, cl', 'movb %%cl, %%%s:%s'), ('add WORD PTR %s:%s, dx', 'addw %%dx, %%%s:%s'), ('push DWORD PTR %s:%s', 'pushl %%%s:%s')]
+    for seg in ('es', 'cs', 'ss', 'ds', 'fs', 'gs'):
+        for mi, ma, bcls in mems:
+            for fi, fa in forms:
+                li, la = fi % (seg, mi), fa % (seg, ma)
+                a, erra = asm_set(x86mnemo.asm, li)
+                b, errb = asm_set(x86mnemo.asm_att, la)
+                if not a and not b:
+                    continue
+                sh.case(('segover', li, la), True, cls='segment-override/%s/%s' % (seg, bcls))
+                if a != b:
+                    kind = 'one-side-rejects' if (a is None or b is None) else ('one-side-empty' if (not a or not b) else 'sets-differ')
+                    sh.violation('segment-override/%s/%s/%s/%s' % (seg, bcls, li.split()[0], kind), '%r -> %s but %r -> %s' % (li, sorted(c.hex() for c in a) if a is not None else erra, la, sorted(c.hex() for c in b) if b is not None else errb),
+                                 {'rewrite': 'intel-att', 'line': li, 'variant': la})
+
+
 def run_x87(sh):
     """x87 arithmetic with st(0) as destination: the one-operand and the two-operand spelling, in both syntaxes, are one
     instruction (the AT&T mnemonic reversal concerns only a st(i) destination, which is left out)."""
@@ -312,6 +334,7 @@ def run_shard(shard, tier, seed):
     if shard[0] == 'x87':
         run_x87(sh)
         run_sse_imm(sh)
+        run_segover(sh)
         return sh
     run_batch(sh, list(asmgen.lines(tier, seed, shard[1], NPARTS)))
     return sh
